@@ -121,4 +121,117 @@ example : Fits [] exSys = true := by
   simp only [Fits, exSys, allSysB, exSys_sorted.1, exSys_sorted.2]
   decide +kernel
 
+/-! ## the overflow clause at atom and file level -/
+
+/-- the fields of a read atom by column name (element and charge are derived, not copied) -/
+def pAtomField (pa : PAtom) : FName → Option RVal
+  | .atomid => some (.int pa.atomid)
+  | .atomname => some (.str pa.atomname)
+  | .altloc => some (.str pa.altloc)
+  | .resname => some (.str pa.resname)
+  | .chain => some (.str pa.chain)
+  | .resid => some (.int pa.resid)
+  | .insertion_code => some (.str pa.icode)
+  | .x => some (.dec pa.x.1 pa.x.2)
+  | .y => some (.dec pa.y.1 pa.y.2)
+  | .z => some (.dec pa.z.1 pa.z.2)
+  | .occupancy => some (.dec pa.occ.1 pa.occ.2)
+  | .temp_factor => some (.dec pa.temp.1 pa.temp.2)
+  | _ => none
+
+theorem atom_slices_kind (serial : Nat) (a : Atom) : ∀ sl ∈ mkSlices 0 pdbReaderFields,
+    covers atomFmt sl.name sl.start sl.stop = some (specAt sl) ∧ (specAt sl).fill = ' ' ∧
+      kindOk (specAt sl) sl.ty (atomEnv serial a sl.name) := by
+  intro sl hsl
+  have hok := List.all_eq_true.mp atom_slices_ok sl hsl
+  simp only [Bool.and_eq_true, decide_eq_true_eq] at hok
+  exact ⟨hok.1.1, hok.1.2, kindOk_atomEnv _ _ _ _ _ hok.2⟩
+
+/-- **overflow never corrupts another field (atom level).**  Take ANY atom — over-long names,
+six-digit residue numbers, coordinates beyond eight columns — and suppose its ATOM line is read as
+an atom `pa`.  Then every field of `pa` whose written value fits its column equals the value
+written: an overflowing field changes its own value only. -/
+theorem pdb_atom_overflow_local (excl : List (List Char)) (ignh : Bool) (serial : Nat) (a : Atom) (pa : PAtom)
+    (hread : parseAtomLine pdb excl ignh (atomLine pdb serial a) = .ok (.keep pa)) :
+    ∀ sl ∈ mkSlices 0 pdbReaderFields, fitsField (specAt sl) (atomEnv serial a sl.name) →
+      ∀ v, pAtomField pa sl.name = some v → v = expected (specAt sl) (atomEnv serial a sl.name) := by
+  intro sl hsl hfit v hv
+  unfold parseAtomLine at hread
+  have hp : pdb.readerFields = pdbReaderFields := rfl
+  rw [hp] at hread
+  cases hr : readFields readFieldPdb (atomLine pdb serial a) (mkSlices 0 pdbReaderFields) with
+  | error e => rw [hr] at hread; simp [bind, Except.bind] at hread
+  | ok props =>
+    rw [hr] at hread
+    simp only [bind, Except.bind] at hread
+    have hk := pdbAtomOfProps_keep excl ignh props pa hread
+    have hloc := fields_overflow_local atomFmt (atomEnv serial a) atom_fmt_allTrunc.1 readFieldPdb (Or.inl rfl)
+      specAt _ props (atom_slices_kind serial a) hr
+    have hnd : (props.map Prod.fst).Nodup := by rw [hloc.1]; decide
+    have hget := Props.get_of_mem props _ _ (hloc.2 sl hsl hfit) hnd
+    obtain ⟨k1, k2, k3, k4, k5, k6, k7, k8, k9, k10, k11, k12⟩ := hk
+    simp only [mkSlices, pdbReaderFields, List.mem_cons, List.not_mem_nil, or_false] at hsl
+    rcases hsl with rfl | rfl | rfl | rfl | rfl | rfl | rfl | rfl | rfl | rfl | rfl | rfl | rfl | rfl <;>
+      simp only [pAtomField, Option.some.injEq, reduceCtorEq] at hv <;>
+      (subst hv; simp_all [Props.int, Props.str, Props.dec, expected, atomEnv])
+
+/-- the atom the reader makes of the line of atom `a` (whatever it is) -/
+def parsedAtomOf (excl : List (List Char)) (serial : Nat) (a : Atom) : PAtom :=
+  match parseAtomLine pdb excl false (atomLine pdb serial a) with
+  | .ok (.keep pa) => pa
+  | _ => pAtomOf serial a
+
+/-- the line of the atom is read as an atom at all (alternate location blank or 'A', residue name
+not excluded, an element can be found) and contains no '#'; NO requirement that values fit -/
+def atomReadableB (excl : List (List Char)) (serial : Nat) (a : Atom) : Bool :=
+  (match parseAtomLine pdb excl false (atomLine pdb serial a) with
+   | .ok (.keep _) => true
+   | _ => false) &&
+  (atomLine pdb serial a).all (· ≠ '#')
+
+/-- **overflow never corrupts another atom or the molecule division (file level).**  For a system
+whose atoms are merely readable — fields may overflow in any way — the text of `write_pdb_string`
+is read back with the same number of molecules, the same number of atoms in each, in the same
+order, and the k-th atom read is what the reader makes of the k-th atom's own line: no other
+atom's values enter (`parsedAtomOf` depends on that atom only), and by `pdb_atom_overflow_local`
+it agrees with the atom written on every field that fits. -/
+theorem pdb_file_overflow_local (excl : List (List Char)) (sys : List Mol)
+    (h : allSysB (atomReadableB excl) 1 sys = true) :
+    ∃ lines r, writePdb pdb false sys = .ok lines ∧ readPdb pdb excl false lines = .ok r ∧
+      r.mols = expectedMols (parsedAtomOf excl) 1 sys ∧ r.bonds = [] := by
+  have hreads : ∀ s a, atomReadableB excl s a = true →
+      ReadsAsAtom pdb excl false (atomLine pdb s a) (parsedAtomOf excl s a) := by
+    intro s a hb
+    unfold atomReadableB at hb
+    simp only [Bool.and_eq_true] at hb
+    apply atom_lines_read excl false s a _ hb.2
+    unfold parsedAtomOf
+    cases hp : parseAtomLine pdb excl false (atomLine pdb s a) with
+    | error e => rw [hp] at hb; simp at hb
+    | ok r =>
+      cases r with
+      | skip => rw [hp] at hb; simp at hb
+      | keep pa => rfl
+  have hall := AllSys_mono hreads sys 1 (allSysB_iff _ sys 1 h)
+  have hne := AllSys_nonempty sys 1 hall
+  have hgroups := groupsOf_ok pdb excl false (parsedAtomOf excl)
+    (fun s a => (ter_end_lines_finish excl false s a).1) sys 1 hall
+  have hend := (ter_end_lines_finish excl false 0 exAtom).2
+  have hw := writeMols_eq_groups pdb (parsedAtomOf excl) sys 1 none hne
+  have hr := readPdb_groups_conects pdb excl false (groupsOf pdb (parsedAtomOf excl) 1 sys) [] pdb.endLine hgroups
+    (by intro l hl; cases hl) hend
+  refine ⟨groupLines (groupsOf pdb (parsedAtomOf excl) 1 sys) ++ [] ++ [pdb.endLine],
+    ⟨(groupsOf pdb (parsedAtomOf excl) 1 sys).map (fun g => g.1.map Prod.snd), []⟩, ?_, ?_, ?_, rfl⟩
+  · simp only [writePdb, hw, bind, Except.bind, pure, Except.pure]
+    rfl
+  · rw [hr]; rfl
+  · exact groupsOf_mols pdb (parsedAtomOf excl) sys 1 hne
+
+/-- `exAtom` (residue number 10000 and y = 99999.999 Å overflow) is readable; its other fields come
+back as written (instance of `pdb_atom_overflow_local`: see the example in `C16Tables`) -/
+example : allSysB (atomReadableB []) 1 [ { atoms := [exAtom], edges := [] } ] = true := by
+  have h : sortedNodes { atoms := [exAtom], edges := [] } = [exAtom] := by simp [sortedNodes]
+  simp only [allSysB, h]
+  decide +kernel
+
 end C16
